@@ -86,7 +86,7 @@ impl Prop for C06 {
         )
             .prop_map(|(src, pre, order, pages)| {
                 // (a stage that does not apply to the current sample type is skipped by the builder)
-                Recipe { src, src2: None, pre, diamond: None, post: vec![], extra_sink: 0, order, pages, src_pieces: vec![] }
+                Recipe { src, src2: None, pre, diamond: None, post: vec![], extra_sink: 0, order, pages, src_pieces: vec![], pkt: false }
             });
         prop_oneof![1 => recipe_strategy(tier.pick(24_000, 60_000) as u32), 1 => tail].boxed()
     }
@@ -116,6 +116,7 @@ impl Prop for C06 {
                         order,
                         pages: 1,
                         src_pieces: vec![],
+                        pkt: false,
                     });
                 }
             }
